@@ -66,6 +66,7 @@ type result struct {
 	Rejected   int              `json:"rejected"`
 	Wipes      int              `json:"wipes"`
 	Races      int              `json:"races"` // polls whose two statements had a committed registration in between
+	Refetches  int              `json:"refetches"`
 	WallMs     int64            `json:"wall_ms"`
 }
 
@@ -136,16 +137,21 @@ type run struct {
 	credsKey map[string]string
 	otherVC  map[string]string
 	// poll in flight
-	pollPos   string
-	armed     atomic.Bool
-	gi        getInfo
-	resp      struct{ seed string; ts int; rows []int }
-	verified  sync.Map // raw -> true: the CLIENT's own verifier accepted it
-	srvEvents int      // state changing server events, to detect races
-	pollMark  int
-	lossyWipe []int // `after` values of polls whose stale response was applied after a wipe
-	probeErr  atomic.Pointer[string]
-	midApply  []string
+	pollPos string
+	armed   atomic.Bool
+	gi      getInfo
+	resp    struct {
+		seed string
+		ts   int
+		rows []int
+	}
+	verified     sync.Map // raw -> true: the CLIENT's own verifier accepted it
+	srvEvents    int      // state changing server events, to detect races
+	pollMark     int
+	lossyWipe    []int // `after` values of polls whose stale response was applied after a wipe
+	probeErr     atomic.Pointer[string]
+	midApply     []string
+	secondLogged bool
 }
 
 func (r *run) viol(kind, site, detail string) {
@@ -637,11 +643,7 @@ func (r *run) pollHoldsServerTx() bool { return r.pollPos == "q1" && r.gi.inTx }
 
 func (r *run) serverEvent(fn func() error) error {
 	if r.pollHoldsServerTx() {
-		// the code serialises the two statements of get in a transaction: the event can only happen afterwards
-		r.res.Deferred++
-		if err := r.pollSecond(); err != nil {
-			return err
-		}
+		return fmt.Errorf("the parked poll holds the server's database connection")
 	}
 	return fn()
 }
@@ -790,6 +792,7 @@ func (r *run) pollFirst() error {
 		return fmt.Errorf("PollFirst while a poll is at %q", r.pollPos)
 	}
 	r.gi = getInfo{}
+	r.secondLogged = false
 	r.pollMark = r.srvEvents
 	r.armed.Store(true)
 	var pollErr error
@@ -815,6 +818,14 @@ func (r *run) pollFirst() error {
 			ev["rts"], ev["rseed"] = r.gi.rts, r.seedNo(r.gi.rseed, true)
 		}
 		r.log("poll.first", ev)
+		if r.gi.inTx {
+			// the code runs the statements of get inside one transaction (and holds the only sqlite connection):
+			// nothing can happen between them, so the second statement follows at once
+			r.res.Deferred++
+			if err := r.advanceToResponse(); err != nil {
+				return err
+			}
+		}
 	case "resp", "done":
 		// get executed no statement the gate could stop at: the whole get is one step
 		r.drift("the server's get did not stop after a first statement (now at %s)", at)
@@ -823,21 +834,25 @@ func (r *run) pollFirst() error {
 	return nil
 }
 
-func (r *run) pollSecond() error {
-	switch r.pollPos {
-	case "q1":
-		if _, err := r.sched.Step("poll", "q1", "go"); err != nil {
-			return err
-		}
-		at, err := r.await()
-		if err != nil {
-			return err
-		}
-		r.pollPos = at
-	case "resp", "done":
-	default:
-		return fmt.Errorf("PollSecond while the poll is at %q", r.pollPos)
+func (r *run) advanceToResponse() error {
+	if _, err := r.sched.Step("poll", "q1", "go"); err != nil {
+		return err
 	}
+	at, err := r.await()
+	if err != nil {
+		return err
+	}
+	r.pollPos = at
+	r.logSecond()
+	return nil
+}
+
+// logSecond records the second statement of get at the moment it really happened.
+func (r *run) logSecond() {
+	if r.secondLogged {
+		return
+	}
+	r.secondLogged = true
 	r.armed.Store(false)
 	if r.srvEvents != r.pollMark && r.pollPos == "resp" {
 		r.res.Races++
@@ -845,7 +860,17 @@ func (r *run) pollSecond() error {
 	rows := append([]int{}, r.resp.rows...)
 	sort.Ints(rows)
 	r.log("poll.second", map[string]any{"rows": rows, "rts": r.resp.ts, "rseed": r.seedNo(r.resp.seed, true)})
-	return nil
+}
+
+func (r *run) pollSecond() error {
+	switch r.pollPos {
+	case "q1":
+		return r.advanceToResponse()
+	case "resp", "done":
+		r.logSecond()
+		return nil
+	}
+	return fmt.Errorf("PollSecond while the poll is at %q", r.pollPos)
 }
 
 func (r *run) clientApply() error {
@@ -863,6 +888,16 @@ func (r *run) clientApply() error {
 		at, err := r.await()
 		if err != nil {
 			return err
+		}
+		for n := 0; at == "resp" && n < 3; n++ {
+			// the client asked the server again within the same update (e.g. starting over after a wipe)
+			r.res.Refetches++
+			if _, err = r.sched.Step("poll", "resp", "go"); err != nil {
+				return err
+			}
+			if at, err = r.await(); err != nil {
+				return err
+			}
 		}
 		if at != "done" {
 			return fmt.Errorf("poll at %q after the response was delivered", at)
